@@ -88,7 +88,7 @@ def requirements(tier):
         "config:bsp": 1,
         "config:pck": 1,
         "config:dynamic-frames": 1,
-        "history:create_frames-again": 1, "history:get_orbit-result-edited-in-place": 100 if q else 2000,
+        "instant:kernel-span-first": 1, "instant:kernel-span-last": 1, "history:create_frames-again": 1, "history:get_orbit-result-edited-in-place": 100 if q else 2000,
         "scale:UTC": 10,
         "scale:TDB": 10,
         "scale:TT": 10,
@@ -234,6 +234,12 @@ def run_pairs(ctx, job, idx, rng, st):
     lo = K.start_jd - 2400000.5 + 0.01
     hi = K.end_jd - 2400000.5 - 0.01
     scale, d, s = gen_instant(rng, idx, job["n"], lo, hi)
+    if idx in (1, 2):
+        # "every date in the span of the kernel": its first and its last instant themselves (the span is closed)
+        edge = (K.start_jd if idx == 1 else K.end_jd) - 2400000.5
+        scale, d = "TDB", int(math.floor(edge))
+        s = round((edge - d) * 86400.0, 6)
+        ctx.count("instant:kernel-span-" + ("first" if idx == 1 else "last"))
     descr = {"scale": scale, "mjd_day": d, "seconds": s}
     ctx.case(descr)
     ctx.count("scale:" + scale)
